@@ -403,6 +403,65 @@ class CallsMixin:
     def b_itervalues(self, args, kwargs, node):
         return PyObj('mapview', map=args[0], what='values')
 
+    def _all_any(self, args, is_all):
+        g0 = args[0]
+        if not (isinstance(g0, PyObj) and g0.tag == 'genexp'):
+            raise Unsupported('all()/any() of a non-generator')
+        ge = g0.node
+        if len(ge.generators) != 1:
+            raise Unsupported('all()/any() with several generators')
+        g = ge.generators[0]
+        tag, src = self.iter_source(self.eval(g.iter))
+        if tag == 'empty':
+            return K.vbool(is_all)
+        if tag == 'set':
+            src, tag = self.set_to_seq(src), 'seq'
+        if tag == 'pytuple':
+            res = []
+            saved = dict(self.env)
+            saved_spec, self.spec = self.spec, True
+            try:
+                for item in src:
+                    self.assign_to(g.target, item)
+                    conds = [self.truth(self.eval(c)) for c in g.ifs]
+                    body = self.truth(self.eval(ge.elt))
+                    res.append(z3.Implies(z3.And(*conds), body) if is_all else z3.And(*conds + [body]))
+            finally:
+                self.spec = saved_spec
+                self.env = saved
+            return K.vbool((z3.And if is_all else z3.Or)(*res) if res else z3.BoolVal(is_all))
+        if tag == 'seq':
+            n = K.seq_len(src)
+            elem = lambda q: K.seq_get(src, q)
+            live = lambda q: z3.BoolVal(True)
+        elif tag.startswith('map:'):
+            n = src.terms[1]
+            what = tag[4:]
+            elem = lambda q: (K.map_key_at(src, q) if what == 'keys' else
+                              (K.map_get(src, K.map_key_at(src, q)) if what == 'values'
+                               else K.vtuple([K.map_key_at(src, q), K.map_get(src, K.map_key_at(src, q))])))
+            live = lambda q: K.map_live(src, q)
+        else:
+            raise Unsupported('all()/any() over %s' % tag)
+        q = self.p.fresh('aa!i', z3.IntSort())
+        saved = dict(self.env)
+        saved_spec, self.spec = self.spec, True
+        try:
+            self.assign_to(g.target, elem(q))
+            conds = [self.truth(self.eval(c)) for c in g.ifs]
+            body = self.truth(self.eval(ge.elt))
+        finally:
+            self.spec = saved_spec
+            self.env = saved
+        guard = z3.And(0 <= q, q < n, live(q), *conds)
+        return K.vbool(z3.ForAll([q], z3.Implies(guard, body)) if is_all else z3.Exists([q], z3.And(guard, body)))
+
+    def b_all(self, args, kwargs, node):
+        return self._all_any(args, True)
+
+    def b_any(self, args, kwargs, node):
+        return self._all_any(args, False)
+
     def b_enumerate(self, args, kwargs, node):
         return PyObj('enumerate', seq=args[0])
 
